@@ -1,7 +1,8 @@
 """C02 — exact algorithms return a minimum-weight basis and its weight."""
 import c01
 from exact import *
-THEOREMS = ["Parmcb.C02." + t for t in ["c02_min", "c02_value_unique", "c02_ret", "c02_mcb_weight_unique", "c02_validated_run_is_mcb", "c02_sorted_weights", "c02_basis_card", "c02_allVertices", "c02_hiddenEdge_complete", "c02_hiddenEdge_sound", "c02_search_value", "c02_picks_ok", "c02_caller_numbering"]]
+THEOREMS = ["Parmcb.C02." + t for t in ["c02_min", "c02_value_unique", "c02_ret", "c02_mcb_weight_unique", "c02_validated_run_is_mcb", "c02_sorted_weights", "c02_basis_card", "c02_allVertices", "c02_hiddenEdge_complete", "c02_hiddenEdge_sound", "c02_search_value", "c02_picks_ok", "c02_caller_numbering",
+    "c02_fvs_trees_end_to_end", "c02_iso_trees_end_to_end", "c02_signed_end_to_end", "c02_search_sound", "c02_search_complete", "c02_signed_phase", "c14_builder", "c02_sorter_ok"]]
 def the_oracle(case, block, mu_cache):
     key = json.dumps([case[0], case[1]])
     if key not in mu_cache: mu_cache[key] = mcb_weight_oracle(case[0], case[1])
